@@ -643,3 +643,51 @@ func verifH_C04_rules2() {
 	}
 	verifReach("end")
 }
+
+//verif:harness id=C04 tier=quick,thorough witness=end,accepted,rejected bounds="component names: a component of each of the nine kinds added under a name of 1-2 symbolic bytes (any printable ASCII): the document is accepted iff every byte is a letter, a digit, '.', '_' or '-'"
+func verifH_C04_component_names() {
+	doc := verifLoadBase()
+	if doc == nil {
+		return
+	}
+	n := 1 + verifChoose("len", 2)
+	name := verifNondetStringN("name", n)
+	ok := true
+	for i := 0; i < len(name); i++ {
+		c := name[i]
+		verifAssume(c >= 0x20 && c < 0x7f)
+		if !(c >= 'a' && c <= 'z' || c >= 'A' && c <= 'Z' || c >= '0' && c <= '9' || c == '.' || c == '_' || c == '-') {
+			ok = false
+		}
+	}
+	strS := &SchemaRef{Value: &Schema{Type: &Types{"string"}}}
+	switch verifChoose("kind", 9) {
+	case 0:
+		doc.Components.Schemas = Schemas{name: strS}
+	case 1:
+		doc.Components.Parameters[name] = &ParameterRef{Value: &Parameter{Name: "n", In: "query", Schema: strS}}
+	case 2:
+		doc.Components.Headers[name] = &HeaderRef{Value: &Header{Parameter: Parameter{Schema: strS}}}
+	case 3:
+		doc.Components.RequestBodies[name] = &RequestBodyRef{Value: &RequestBody{Content: Content{"text/plain": &MediaType{}}}}
+	case 4:
+		d := "d"
+		doc.Components.Responses[name] = &ResponseRef{Value: &Response{Description: &d}}
+	case 5:
+		doc.Components.SecuritySchemes[name] = &SecuritySchemeRef{Value: &SecurityScheme{Type: "http", Scheme: "basic"}}
+	case 6:
+		doc.Components.Examples[name] = &ExampleRef{Value: &Example{Value: 1}}
+	case 7:
+		doc.Components.Links[name] = &LinkRef{Value: &Link{OperationID: "get"}}
+	case 8:
+		doc.Components.Callbacks[name] = &CallbackRef{Value: NewCallbackWithCapacity(0)}
+	}
+	err := doc.Validate(context.Background())
+	if err == nil {
+		verifReach("accepted")
+	} else {
+		verifReach("rejected")
+	}
+	verifAssert((err == nil) == ok, "C04 component names: a component name is accepted iff it consists of letters, digits, '.', '_' and '-'")
+	verifReach("end")
+}
